@@ -34,7 +34,7 @@ def sh(cmd, **kw):
 
 def main():
     global REPO
-    d, pid = sys.argv[1], sys.argv[2]
+    d, pid = os.path.abspath(sys.argv[1]), sys.argv[2]
     wt = None
     if "--worktree" in sys.argv:
         wt = "/var/tmp/seedwt-%s-%d" % (pid, os.getpid())
